@@ -17,6 +17,7 @@ import Abmarl.Model.CommDriver
 import Abmarl.Model.WrappersDriver
 import Abmarl.Model.GridSimDriver
 import Abmarl.Model.MemberDriver
+import Abmarl.Model.ExamplesDriver
 /-! Line-protocol driver: one request per line on stdin, one reply per line on stdout. -/
 open Abmarl
 
@@ -59,6 +60,8 @@ def dispatch (line : String) : String :=
       | "ghist" => GridSimDriver.handleHist args
       | "gwinv" => GridSimDriver.handleWInv args
       | "gmember" => MemberDriver.handle args
+      | "gexample" => ExamplesDriver.handle args
+      | "mgrx" => ExamplesDriver.handleMgr args
       | "ping" => some (.list (.atom "pong" :: args))
       | _ => none
     match r with
